@@ -334,6 +334,47 @@ func planCanon(p *Prog, stdlib, methods bool) canonPlan {
 						}
 					}
 					return true
+				case *ast.IfStmt:
+					// if v := cmp.Or(A, B); v != zero { BODY }  ->  if v := A; v != zero { BODY } else if v := B; v != zero { BODY }
+					if x.Else != nil || x.Init == nil || !free(x.Pos(), x.End()) {
+						return true
+					}
+					if as, isAs := x.Init.(*ast.AssignStmt); isAs && as.Tok == token.DEFINE && len(as.Lhs) == 1 && len(as.Rhs) == 1 {
+						call, isCall := ast.Unparen(as.Rhs[0]).(*ast.CallExpr)
+						vid, isId := as.Lhs[0].(*ast.Ident)
+						if !isCall || !isId || len(call.Args) != 2 || call.Ellipsis.IsValid() || stdName(call.Fun) != "cmp.Or" || !isPlainOperand(call.Args[0]) || !callFree(call.Args[1]) {
+							return true
+						}
+						zero := zeroText(info.TypeOf(call))
+						be, isBe := ast.Unparen(x.Cond).(*ast.BinaryExpr)
+						if zero == "" || !isBe || be.Op != token.NEQ || in.text(be.X.Pos(), be.X.End()) != vid.Name || in.text(be.Y.Pos(), be.Y.End()) != zero {
+							return true
+						}
+						labelled := false
+						ast.Inspect(x.Body, func(m ast.Node) bool {
+							if _, isL := m.(*ast.LabeledStmt); isL {
+								labelled = true
+							}
+							return !labelled
+						})
+						if labelled {
+							return true
+						}
+						if _, isBlk := p.parents[x].(*ast.BlockStmt); !isBlk {
+							return true
+						}
+						a0, a1 := in.text(call.Args[0].Pos(), call.Args[0].End()), in.text(call.Args[1].Pos(), call.Args[1].End())
+						body := in.text(x.Body.Pos(), x.Body.End())
+						cond := vid.Name + " != " + zero
+						fe := in.file(x.Pos())
+						fe.edits = append(fe.edits, textEdit{start: in.off(x.Pos()), end: in.off(x.End()),
+							text: "if " + vid.Name + " := " + a0 + "; " + cond + " " + body + " else if " + vid.Name + " := " + a1 + "; " + cond + " " + body})
+						taken = append(taken, [2]token.Pos{x.Pos(), x.End()})
+						keep[pkgIdent(call.Fun)] = true
+						plan.expanded = append(plan.expanded, "if v := cmp.Or(..) as two tests")
+						return false
+					}
+					return true
 				case *ast.ReturnStmt:
 					// return ptr.Deref(P, D)  ->  if P != nil { return *P }; return D
 					if len(x.Results) != 1 || !free(x.Pos(), x.End()) {
@@ -374,6 +415,32 @@ func planCanon(p *Prog, stdlib, methods bool) canonPlan {
 										plan.expanded = append(plan.expanded, "x := ptr.Deref as a conditional assignment")
 										return false
 									}
+								}
+							}
+						}
+					}
+					// X = cmp.Or(X, Y)  ->  if X == zero { X = Y };   v := cmp.Or(A, B)  ->  v := A; if v == zero { v = B }
+					// (Y / B call-free: cmp.Or evaluates both, the conditional form only when needed)
+					if (x.Tok == token.ASSIGN || x.Tok == token.DEFINE) && len(x.Lhs) == 1 && len(x.Rhs) == 1 && free(x.Pos(), x.End()) {
+						if call, isCall := ast.Unparen(x.Rhs[0]).(*ast.CallExpr); isCall && len(call.Args) == 2 && !call.Ellipsis.IsValid() && stdName(call.Fun) == "cmp.Or" &&
+							isPlainOperand(call.Args[0]) && callFree(call.Args[1]) {
+							zero := zeroText(info.TypeOf(call))
+							lid, isId := x.Lhs[0].(*ast.Ident)
+							if _, isBlk := p.parents[x].(*ast.BlockStmt); isBlk && zero != "" && isId && lid.Name != "_" {
+								a0, a1 := in.text(call.Args[0].Pos(), call.Args[0].End()), in.text(call.Args[1].Pos(), call.Args[1].End())
+								txt := ""
+								if x.Tok == token.ASSIGN && a0 == lid.Name {
+									txt = "if " + lid.Name + " == " + zero + " {\n" + lid.Name + " = " + a1 + "\n}"
+								} else if a1 != lid.Name {
+									txt = lid.Name + " " + x.Tok.String() + " " + a0 + "\nif " + lid.Name + " == " + zero + " {\n" + lid.Name + " = " + a1 + "\n}"
+								}
+								if txt != "" {
+									fe := in.file(x.Pos())
+									fe.edits = append(fe.edits, textEdit{start: in.off(x.Pos()), end: in.off(x.End()), text: txt})
+									taken = append(taken, [2]token.Pos{x.Pos(), x.End()})
+									keep[pkgIdent(call.Fun)] = true
+									plan.expanded = append(plan.expanded, "cmp.Or as a conditional assignment")
+									return false
 								}
 							}
 						}
@@ -1190,6 +1257,7 @@ func planCanon(p *Prog, stdlib, methods bool) canonPlan {
 		planMethodRestore(p, in, &plan)
 		planAnchorRestore(p, in, &plan, map[*ast.FuncDecl]bool{})
 		planAnchorMoved(p, in, &plan)
+		planResultUngroup(p, in, &plan)
 		planFieldRestore(p, in, &plan)
 		planParamObjects(p, in, &plan)
 	}
@@ -1866,4 +1934,23 @@ func twoValuedCompare(p *Prog, in *inliner, info *types.Info, be *ast.BinaryExpr
 		return cond, true
 	}
 	return "", false
+}
+
+// zeroText spells the zero value of a comparable type whose zero has a literal: nil, "" or 0.
+func zeroText(t types.Type) string {
+	if t == nil {
+		return ""
+	}
+	switch u := t.Underlying().(type) {
+	case *types.Pointer, *types.Slice, *types.Map, *types.Chan, *types.Signature, *types.Interface:
+		return "nil"
+	case *types.Basic:
+		switch {
+		case u.Info()&types.IsString != 0:
+			return "\"\""
+		case u.Info()&types.IsNumeric != 0:
+			return "0"
+		}
+	}
+	return ""
 }
